@@ -11,7 +11,7 @@ theorem lexerNext_inRange (env : ApiEnv) (hA : WF env.gA) (hB : WF env.gB) (hp :
     (lexerNext env st).1.inRange env.src.length := by
   have hG : WF (env.graph st.ty) := by unfold ApiEnv.graph; split <;> assumption
   have hC : NoBump (env.cb st.ty) := by unfold ApiEnv.cb; split <;> assumption
-  have := nextLoop_ok hG (env.cb st.ty) hC true env.src hb (env.src.length + 2) st.stop h.2 (by omega)
+  have := nextLoop_ok hG (env.cb st.ty) hC env.utf8 env.src hb (env.src.length + 2) st.stop h.2 (by omega)
   unfold lexerNext
   rw [hp]
   rcases this with h1 | ⟨it, h1, h2, h3, h4⟩
@@ -20,9 +20,14 @@ theorem lexerNext_inRange (env : ApiEnv) (hA : WF env.gA) (hB : WF env.gB) (hp :
 
 theorem lexerBump_inRange (env : ApiEnv) (st : LexSt) (n : Nat) (h : st.inRange env.src.length) :
     (lexerBump env st n).1.inRange env.src.length := by
+  have hbf : BoundaryFn env.src.length env.isB := by
+    unfold ApiEnv.isB
+    split
+    · exact boundaryFn_str env.src
+    · exact boundaryFn_bytes env.src.length
   unfold lexerBump bumpFixed
-  by_cases hc : st.stop + n < two64 ∧ isBoundary env.src (st.stop + n) = true
-  · have := boundaryFn_str env.src _ hc.2
+  by_cases hc : st.stop + n < two64 ∧ env.isB (st.stop + n) = true
+  · have := hbf _ hc.2
     have := h.1
     simp only [hc, and_self, if_true, LexSt.inRange]
     omega
